@@ -58,6 +58,13 @@ static std::string desc(const std::vector<std::string>& names, const Elem& e) {
   for (auto& m : e.mv) { char b[96]; snprintf(b, sizeof b, " ; %s*%Lg", m.kind == 0 ? names[m.idx].c_str() : cn[m.idx], m.f); s += b; }
   return s;
 }
+// (h) a user function that itself calls the library (another evaluator of the same handle at another point) and returns what the plain
+// user function returns: the outer evaluation must not notice
+static const ApiEntry* g_reent = 0; static ApiArgs g_reargs;
+static double cb_plain_d(double T) { return 2.75 + 0.25 * T; }
+static LD cb_plain_l(LD T) { return 2.75L + 0.25L * T; }
+static double cb_reent_d(double T) { if (g_reent) { ApiArgs B = g_reargs; B.fd = cb_plain_d; B.fl = cb_plain_l; g_reent->cd(B); } return cb_plain_d(T); }
+static LD cb_reent_l(LD T) { if (g_reent) { ApiArgs B = g_reargs; B.fd = cb_plain_d; B.fl = cb_plain_l; g_reent->cl(B); } return cb_plain_l(T); }
 template <class S> static void explore(const std::string& sol, const std::vector<std::string>& evnames, int tier, FILE* out, const char* scal) {
   Runner<S> R; std::cout.setstate(std::ios::failbit);
   { std::cout.clear(); capture([&] { masa_init<S>("o2", sol); }); std::string o = capture([] { masa_display_param<S>(); }); std::istringstream ps(o); std::string line;
@@ -124,6 +131,15 @@ template <class S> static void explore(const std::string& sol, const std::vector
   }
   std::cout.setstate(std::ios::failbit);
   bool fork_each = n <= 4;  // tiny solutions (sod_1d): one process per target, because an inadmissible element may make the library abort
+  // (h) re-entrant user functions
+  if (!getenv("O2_SELECTION_ONLY")) for (size_t k = 0; k < R.ev.size(); k++) if (strchr(R.ev[k]->sig, 'F')) for (size_t q = 0; q < R.ev.size(); q++) {
+    LD cb0[4]; R.apply(base, 0, 0, cb0);
+    ApiArgs A; for (int t = 0; t < 4; t++) A.s[t] = cb0[t]; A.i = 1; A.fd = cb_plain_d; A.fl = cb_plain_l;
+    S plain = sizeof(S) == 8 ? (S)R.ev[k]->cd(A) : (S)R.ev[k]->cl(A);
+    g_reent = R.ev[q]; g_reargs = A; for (int t = 0; t < 4; t++) g_reargs.s[t] = cb0[t] * 4 + 1.25L; A.fd = cb_reent_d; A.fl = cb_reent_l;
+    S re = sizeof(S) == 8 ? (S)R.ev[k]->cd(A) : (S)R.ev[k]->cl(A); g_reent = 0; hist++;
+    if (memcmp(&plain, &re, sizeof(S) == 8 ? 8 : 10) != 0 && viol < 40) { viol++; fprintf(out, "V\t%s\t%s\t%s/%s\tvalue changes when the user function itself evaluates %s/%s of the same handle at another point (and returns the same number)\n", sol.c_str(), scal, R.ev[k]->name, R.ev[k]->sig, R.ev[q]->name, R.ev[q]->sig); }
+  }
   // (f) partly uninitialised states: one parameter, or two, hold the "uninitialised" marker -12345.67 (what masa_purge_default_param stores)
   // while all others are set -- evaluating must still not write any registered parameter ("derive a default when the user left it unset")
   if (!getenv("O2_SELECTION_ONLY") && n > 4) {
